@@ -23,11 +23,14 @@ Toks == { <<60,97,62>>, <<60,47,97,62>>, <<60,98,62>>, <<60,47,98,62>>, <<60,97,
           <<60,33,68,79,67,84,89,80,69,32,100,62>>,                                             \* <!DOCTYPE d>
           <<38,108,116,59>>, <<38,120,59>>,                                                     \* &lt; &x;
           <<60,97,32,107,61,34,49,34,62>>,                                                      \* <a k="1">
-          <<60,98,32,120,115,105,58,110,105,108,61,34,116,114,117,101,34,47,62>> }              \* <b xsi:nil="true"/>
+          <<60,98,32,120,115,105,58,110,105,108,61,34,116,114,117,101,34,47,62>>,               \* <b xsi:nil="true"/>
+          <<195,160>>,                                                                          \* a-grave: UTF-8 C3 A0 (continuation byte = NBSP in Latin-1)
+          <<60,97,32,108,61,34,195,133,32,49,34,62>> }                                          \* <a l="A-ring 1">  (C3 85)
 
 \* tokens that matter inside one text run of an element (Mode "textrun": <a> + tokens [+ </a>])
 TextToks == { <<116>>, <<32>>, <<60,33,91,67,68,65,84,65,91,99,93,93,62>>, <<60,33,45,45,120,45,45,62>>,
-              <<60,33,68,79,67,84,89,80,69,32,100,62>>, <<38,108,116,59>>, <<60,47,97,62>> }
+              <<60,33,68,79,67,84,89,80,69,32,100,62>>, <<38,108,116,59>>, <<60,47,97,62>>,
+              <<195,160>>, <<194,160>>, <<208,160,32,195,133>> }       \* a-grave, NBSP, "Cyrillic-Er A-ring" (continuation bytes A0 / 85)
 
 \* ---------------------------------------------------------------- rendering logical events
 EscText(s) == Esc(s, "partial")
